@@ -275,8 +275,8 @@ func (s *Scanner) findLineEnd() bool {
 			}
 		}
 		s.skipWhitespace() // s.insertSemi is set
-		if s.ch < 0 || s.ch == '\n' {
-			return true
+		if s.ch < 0 || s.ch == '\n' || s.ch == '#' {
+			return true // a #-style comment always extends to the end of the line
 		}
 		if s.ch != '/' {
 			// non-comment token
